@@ -377,3 +377,68 @@ def contracts():
     for c in extra:
         c.prop = PROP
     return _c06_base3() + extra
+
+
+# ---------------------------------------------------------------------------------------------
+# concrete probe: what a depends declaration watches is a SET of dependencies — order, interleaving of
+# owners and emptiness of the list do not matter
+# ---------------------------------------------------------------------------------------------
+DECLARATION_REPLAY = '''import sys, os, itertools
+sys.path.insert(0, os.environ.get('PYVC_REPO', '/repo'))
+import param
+bad = []
+class P(param.Parameterized):
+    a = param.Number(0); b = param.Number(0); c = param.Number(0)
+class Q(param.Parameterized):
+    x = param.Number(0); y = param.Number(0)
+# function form: every ordering of dependencies of two objects; one batch changing two of p's parameters
+names = [('p', 'a'), ('q', 'x'), ('p', 'b'), ('q', 'y')]
+for perm in itertools.permutations(names):
+    p, q = P(), Q()
+    objs = {'p': p, 'q': q}
+    calls = []
+    f = param.depends(*[objs[o].param[n] for o, n in perm], watch=True)(lambda *a: calls.append(a))
+    for label, act, want in (('p.param.update(a=1, b=1)', lambda: p.param.update(a=1, b=1), 1),
+                             ('batch: p.a = 2; p.b = 2', None, 1),
+                             ('q.param.update(x=1, y=1)', lambda: q.param.update(x=1, y=1), 1),
+                             ('p.a = 3', lambda: setattr(p, 'a', 3), 1)):
+        del calls[:]
+        if act is None:
+            with param.parameterized.batch_call_watchers(p):
+                p.a = 2; p.b = 2
+        else:
+            act()
+        if len(calls) != want:
+            bad.append('depends(%s, watch=True): %s ran the function %d times, expected %d'
+                       % (', '.join('%s.%s' % t for t in perm), label, len(calls), want))
+            break
+# method form: a method that declares NO dependency never runs because of a parameter change
+for decl, kw in (('depends(watch=True)', {}), ('depends(on_init=True, watch=True)', {'on_init': True})):
+    log = []
+    ns = {'a': param.Number(0), 'b': param.Number(0),
+          'run_once': param.depends(watch=True, **kw)(lambda self: log.append('run_once')),
+          'after': param.depends('run_once', watch=True)(lambda self: log.append('after')),
+          'on_a': param.depends('a', watch=True)(lambda self: log.append('on_a'))}
+    K = type('K', (param.Parameterized,), ns)
+    S = type('S', (K,), {})
+    for cls in (K, S):
+        o = cls()
+        start = list(log); del log[:]
+        if kw and start.count('run_once') != 1:
+            bad.append('%s on %s: ran %d times at construction, expected once' % (decl, cls.__name__, start.count('run_once')))
+        o.b = 1; o.param.update(b=2)
+        with param.parameterized.batch_call_watchers(o):
+            o.b = 3
+        if log:
+            bad.append('%s on %s: a change of the unrelated parameter b ran %r' % (decl, cls.__name__, log))
+        del log[:]
+        o.a = 1
+        if log != ['on_a']:
+            bad.append('%s on %s: a change of a ran %r, expected only on_a' % (decl, cls.__name__, log))
+        del log[:]
+if bad:
+    print('REPRODUCED: ' + bad[0]); sys.exit(1)
+print('NOT-REPRODUCED'); sys.exit(0)
+'''
+
+PROBES = [("a depends declaration is a set of dependencies (order, interleaved owners, empty lists)", DECLARATION_REPLAY)]
